@@ -5,7 +5,8 @@ import signal
 from .session import Sess, find_errors
 from . import core
 
-CALL_TIMEOUT = 30.0     # seconds; an implementation call that does not return is reported as k='internal' (hang)
+CALL_TIMEOUT = 60.0     # seconds of PROCESS CPU TIME (ITIMER_VIRTUAL: a starved process on a loaded machine must not look like a
+                        # hang); an implementation call that burns that much is reported as k='internal' (hang)
 MAX_HANGS = 3           # after that many hangs no further call is made (events marked SKIPPED are not validated)
 SKIPPED = 'not executed: the implementation hung %d times before' % MAX_HANGS
 
@@ -15,7 +16,7 @@ class Hang(BaseException):
 
 
 def _on_alarm(signum, frame):
-    raise Hang('implementation call did not return within %d s' % CALL_TIMEOUT)
+    raise Hang('implementation call did not return within %d s of CPU time' % CALL_TIMEOUT)
 
 TNAME = {b'%': 'i', b'!': 's', b'#': 'd', b'$': 'str'}
 SIZE = {'i': 2, 's': 4, 'd': 8}
@@ -41,26 +42,29 @@ class Drv(object):
         self.ntext = 0
         self.ndirect = 0
         self.hangs = 0
+        self.last_detail = ''
         # watchdog (main thread only): armed around every implementation call
-        signal.signal(signal.SIGALRM, _on_alarm)
+        signal.signal(signal.SIGVTALRM, _on_alarm)
 
     def close(self):
-        signal.setitimer(signal.ITIMER_REAL, 0)
+        signal.setitimer(signal.ITIMER_VIRTUAL, 0)
         self.sess.close()
 
     def ev(self, expr):
         """Session.evaluate through vf.session.Sess.ev, under the watchdog."""
         if self.hangs >= MAX_HANGS:
             return ('internal', SKIPPED, b'')
-        signal.setitimer(signal.ITIMER_REAL, CALL_TIMEOUT)
+        signal.setitimer(signal.ITIMER_VIRTUAL, CALL_TIMEOUT)
         try:
             r = self.sess.ev(expr)
         except Hang as e:
             r = ('internal', 'Hang: %s' % e, b'')
         finally:
-            signal.setitimer(signal.ITIMER_REAL, 0)
-        if r[0] == 'internal' and str(r[1]).startswith('Hang'):
-            self.hangs += 1
+            signal.setitimer(signal.ITIMER_VIRTUAL, 0)
+        if r[0] == 'internal':
+            self.last_detail = str(r[1])
+            if self.last_detail.startswith('Hang'):
+                self.hangs += 1
         return r
 
     # ---- values --------------------------------------------------------------
@@ -80,7 +84,7 @@ class Drv(object):
         if self.hangs >= MAX_HANGS:
             return {'k': 'internal', 't': '?', 'b': [], 'c': 0, 'detail': SKIPPED}
         self.ndirect += 1
-        signal.setitimer(signal.ITIMER_REAL, CALL_TIMEOUT)
+        signal.setitimer(signal.ITIMER_VIRTUAL, CALL_TIMEOUT)
         try:
             r = fn(*args)
         except self.error.BASICError as e:
@@ -88,13 +92,15 @@ class Drv(object):
         except BaseException as e:  # noqa  (an escaping Python exception or a hang: always a rejection)
             if isinstance(e, Hang):
                 self.hangs += 1
-            return {'k': 'internal', 't': '?', 'b': [], 'c': 0, 'detail': '%s: %s' % (type(e).__name__, e)}
+            self.last_detail = '%s: %s' % (type(e).__name__, e)
+            return {'k': 'internal', 't': '?', 'b': [], 'c': 0, 'detail': self.last_detail}
         finally:
-            signal.setitimer(signal.ITIMER_REAL, 0)
+            signal.setitimer(signal.ITIMER_VIRTUAL, 0)
         try:
             t, b = self.project(r)
         except BaseException as e:  # noqa
-            return {'k': 'internal', 't': '?', 'b': [], 'c': 0, 'detail': 'projection: %r' % (e,)}
+            self.last_detail = 'projection: %r' % (e,)
+            return {'k': 'internal', 't': '?', 'b': [], 'c': 0, 'detail': self.last_detail}
         return {'k': 'val', 't': t, 'b': b, 'c': 0}
 
     def evalv(self, expr):
@@ -111,7 +117,7 @@ class Drv(object):
         s.take()
         self.vm.error_handler.suspend(False)
         res = None
-        signal.setitimer(signal.ITIMER_REAL, CALL_TIMEOUT)
+        signal.setitimer(signal.ITIMER_VIRTUAL, CALL_TIMEOUT)
         try:
             with impl.io_streams.activate():
                 with impl._handle_exceptions():
@@ -119,12 +125,13 @@ class Drv(object):
                     tokens.read(2)
                     res = self.project(impl.parser.parse_expression(tokens))
         except BaseException as e:  # noqa
-            signal.setitimer(signal.ITIMER_REAL, 0)
+            signal.setitimer(signal.ITIMER_VIRTUAL, 0)
             self.vm.error_handler.suspend(True)
             if isinstance(e, Hang):
                 self.hangs += 1
-            return {'k': 'internal', 't': '?', 'b': [], 'c': 0, 'detail': '%s: %s' % (type(e).__name__, e)}
-        signal.setitimer(signal.ITIMER_REAL, 0)
+            self.last_detail = '%s: %s' % (type(e).__name__, e)
+            return {'k': 'internal', 't': '?', 'b': [], 'c': 0, 'detail': self.last_detail}
+        signal.setitimer(signal.ITIMER_VIRTUAL, 0)
         self.vm.error_handler.suspend(True)
         errs = find_errors(s.take())
         if res is None:
@@ -378,11 +385,13 @@ class _Done(object):
 class Sink(object):
     """events.append(e) -> pipeline, keeping the first event of each wanted group as an evidence sample."""
 
-    def __init__(self, ctx, pipe, group, sample_groups=()):
-        self.ctx, self.pipe, self.group = ctx, pipe, group
+    def __init__(self, ctx, pipe, group, sample_groups=(), drv=None):
+        self.ctx, self.pipe, self.group, self.drv = ctx, pipe, group, drv
         self.want = list(sample_groups)
 
     def append(self, e):
+        if self.drv is not None and 'detail' not in e and 'internal' in (e.get('k'), e.get('k1'), e.get('k2'), e.get('bk')):
+            e['detail'] = self.drv.last_detail      # what escaped from the implementation (shown with the rejection)
         if SKIPPED in str(e.get('detail', '')):
             return                      # not executed (see Drv.hangs): nothing was observed, nothing to judge
         g = self.group(e)
